@@ -183,7 +183,27 @@ class C11Machine(_BatchBase):
             return {'runs': 260, 'budget_s': 150, 'batch': 1, 'shrink_s': 240}
         return {'runs': 9000, 'budget_s': 1800, 'batch': 1, 'shrink_s': 400}
 
+    MATRIX = [None] + expgen.SAMPLE_FAULTS
+
     def generate(self, rng, tier, index):
+        nm = len(self.MATRIX)
+        if tier == 'thorough' and index < 2 * nm * nm:
+            # exhaustive: every ordered assignment of {no fault, each documented fault kind} to a two-row samples table,
+            # in a fixed context that makes every kind expressible (healthy calibrated beads, failed beads, beads without
+            # MEF values, beads of another instrument); second half: the same with a healthy third row in front
+            i = index % (nm * nm)
+            f1, f2 = self.MATRIX[i // nm], self.MATRIX[i % nm]
+            rows = [{'inst': 0, 'fault': f1}, {'inst': 0, 'fault': f2}]
+            if index >= nm * nm:
+                rows = [{'inst': 0, 'fault': None}] + rows
+            plan = {'n_inst': 2,
+                    'beads': [{'inst': 0, 'fault': None, 'mef': 1}, {'inst': 0, 'fault': 'few_events', 'mef': 1},
+                              {'inst': 0, 'fault': None, 'mef': 0}, {'inst': 1, 'fault': None, 'mef': 1}],
+                    'samples': rows}
+            exp = expgen.gen_experiment(rng, faults=False, small=True, plan=plan)
+            want = [r['fault'] for r in rows]
+            got = [s['fault'] for s in exp['samples']]
+            return {'exp': exp, 'stub': True, 'seed': rng.randint(0, 2 ** 31 - 1), 'matrix': [want, got]}
         if index % 40 == 39:
             exp = expgen.gen_experiment(rng, faults=False, max_samples=1, max_beads=1)
             exp['samples'] = []
